@@ -15,15 +15,15 @@ from vlib.values import teq, UserError, InterruptLike
 
 PROPERTY = 'C09'
 LEVEL = 'exploration'
-RULE = ('histories on one recorder drawn from 15 run kinds {success, raises, interrupted, interrupted inside an intercepted body, discarded, sampled out, forced, '
-        'data-handler fault, key fault, save fails, replay ok, replay of a missing id, replay hitting a missing key, replay whose playback function raises / is '
-        'interrupted}: all length-2 histories x 2 probes exhaustively, then seeded random histories of length 1-8, on memory/file/S3 cassettes; after every '
-        'element the idle predicates are evaluated; the probe (record with repeated output aliases | replay) is compared with the same probe on a fresh recorder. '
+RULE = ('histories on one recorder drawn from 16 run kinds {success, raises, interrupted, interrupted inside an intercepted body, discarded, sampled out, forced, '
+        'data-handler fault, key fault, save fails, kill switch flipped mid-operation and released afterwards, replay ok, replay of a missing id, replay hitting a missing key, replay whose playback function raises / is '
+        'interrupted}: all length-2 histories x 3 probes exhaustively, then seeded random histories of length 1-8, on memory/file/S3 cassettes; after every '
+        'element the idle predicates are evaluated; the probe (record with repeated output aliases | replay | another invocation of a rate-0 class used in the history) is compared with the same probe on a fresh recorder. '
         'A case = one history + probe; distinct = hash of (kinds, probe, cassette); non-trivial = history length >= 1.')
 ASSUMPTIONS = ['ids, durations and timestamps are excluded from the comparison with the fresh recorder',
                'internal anchors _invoke_counter / _currently_in_interception are read only if they exist (otherwise the behavioural probe alone decides)']
 
-KINDS = ['success', 'raises', 'interrupt', 'interrupt_in_body', 'discarded', 'sampled_out', 'forced', 'handler_fault', 'key_fault', 'save_fails',
+KINDS = ['success', 'raises', 'interrupt', 'interrupt_in_body', 'discarded', 'sampled_out', 'forced', 'handler_fault', 'key_fault', 'save_fails', 'kill_switch',
          'replay_ok', 'replay_missing_id', 'replay_missing_key', 'replay_fn_raises', 'replay_fn_interrupted']
 
 
@@ -63,6 +63,7 @@ class Session(object):
         self.rec._random = SpyRandom(rng_seed)
         self.rec.enable_recording()
         self.saved = []   # (recording id, program)
+        self.builts = {}
 
     def close(self):
         self.cm.__exit__(None, None, None)
@@ -96,7 +97,7 @@ def do_element(ctx, sess, kind, seed, w):
     from playback.exceptions import TapeRecorderException
     prog = hist_program(seed)
     rec = sess.rec
-    if kind in ('success', 'raises', 'interrupt', 'interrupt_in_body', 'discarded', 'sampled_out', 'forced', 'handler_fault', 'key_fault', 'save_fails'):
+    if kind in ('success', 'raises', 'interrupt', 'interrupt_in_body', 'discarded', 'sampled_out', 'forced', 'handler_fault', 'key_fault', 'save_fails', 'kill_switch'):
         faults, cfg = {}, {}
         if kind == 'raises':
             faults = {('main', 2): 'raise_user'}
@@ -117,7 +118,13 @@ def do_element(ctx, sess, kind, seed, w):
             faults = {('main', 0): 'badkey'}
         elif kind == 'save_fails':
             cfg = {'fail_save': True}
-        res = fr.execute(prog, faults, recorder=rec, spy=sess.spy, box=sess.box, with_twin=False, **cfg)
+        elif kind == 'kill_switch':
+            faults = {('main', 2): 'disable'}      # recording switched off mid-flight; execute() switches it on again afterwards
+        # the same service class is invoked again and again: one Built (= one class, its parameters registered once) per
+        # (program, sampling configuration)
+        ck = (seed, cfg.get('rate'))
+        res = fr.execute(prog, faults, recorder=rec, spy=sess.spy, box=sess.box, with_twin=False, built=sess.builts.get(ck), **cfg)
+        sess.builts[ck] = res.live
         saves = [e for e in res.spy_events if e[0] == 'save']
         if saves and not any(e[0] == 'save_failed' for e in res.spy_events) and kind in ('success', 'raises', 'forced'):
             sess.saved.append((saves[0][2], prog, faults))
@@ -151,9 +158,14 @@ def do_element(ctx, sess, kind, seed, w):
         ctx.count('history_elements_ending_in_exception')
 
 
-def probe(ctx, rec, spy, box, which, seed, replay_source=None):
+def probe(ctx, rec, spy, box, which, seed, replay_source=None, builts=None):
     """Returns a comparable summary of the probe run."""
     prog = hist_program(seed)
+    if which == 'record_rate0':
+        # an invocation of a class with sampling rate 0 that forces nothing: must be sampled out whatever earlier invocations did
+        b = (builts or {}).get((seed, 0))
+        res = fr.execute(prog, {}, recorder=rec, spy=spy, box=box, with_twin=False, rate=0, built=b)
+        return ('rate0', [e[0] for e in res.spy_events if e[0] in ('create', 'save', 'abort')], repr(res.outcome))
     if which == 'record':
         res = fr.execute(prog, {}, recorder=rec, spy=spy, box=box, with_twin=False)
         saves = [e for e in res.spy_events if e[0] == 'save']
@@ -182,18 +194,19 @@ def run_history(ctx, kinds, which, kind_cassette, seed):
         src = ([e for e in setup.spy_events if e[0] == 'save'][0][2], hist_program(seed + 999))
         draws_before = len(sess.rec._random.draws)
         for i, k in enumerate(kinds):
-            do_element(ctx, sess, k, seed + i, w)
+            do_element(ctx, sess, k, seed + (i % 2), w)
             ctx.count('history_elements')
             ctx.count('element_' + k)
             idle_check(ctx, sess.rec, w, k)
-        got = probe(ctx, sess.rec, sess.spy, sess.box, which, seed + 500, src)
+        pseed = seed if which == 'record_rate0' else seed + 500
+        got = probe(ctx, sess.rec, sess.spy, sess.box, which, pseed, src, builts=sess.builts)
         idle_check(ctx, sess.rec, w, 'probe ' + which)
         # the same probe on a fresh recorder over the same cassette contents
         spy2 = SpyCassette(sess.box.cassette)
         fresh = TapeRecorder(spy2)
         fresh._random = SpyRandom(11)
         fresh.enable_recording()
-        exp = probe(ctx, fresh, spy2, sess.box, which, seed + 500, src)
+        exp = probe(ctx, fresh, spy2, sess.box, which, pseed, src)
         ctx.count('probes_compared')
         if not teq(got, exp):
             ctx.violation('probe (%s) after history %s differs from the same probe on a fresh recorder' % (which, kinds),
@@ -205,7 +218,7 @@ def run_history(ctx, kinds, which, kind_cassette, seed):
 def run(ctx):
     idx = 0
     for a, b in itertools.product(KINDS, KINDS):
-        for which in ('record', 'replay'):
+        for which in ('record', 'replay', 'record_rate0'):
             idx += 1
             if ctx.mine(idx):
                 run_history(ctx, [a, b], which, ('memory', 'file', 's3')[idx % 3], 1000 + idx)
@@ -214,7 +227,7 @@ def run(ctx):
     rng = ctx.rng
     for i in range(n):
         kinds = [rng.choice(KINDS) for _ in range(rng.randrange(1, 9))]
-        run_history(ctx, kinds, rng.choice(['record', 'replay']), rng.choice(['memory', 'memory', 'file', 's3']), rng.randrange(1 << 20))
+        run_history(ctx, kinds, rng.choice(['record', 'replay', 'record_rate0']), rng.choice(['memory', 'memory', 'file', 's3']), rng.randrange(1 << 20))
     if not ctx.quick and ctx.shard == 0:
         # auxiliary workload: the repository's own tests with the idle predicates evaluated at every test teardown
         from vlib.repo_tests import run_under_monitors
